@@ -145,8 +145,12 @@ def file_json(f):
 
 
 def to_json(c):
-    return {"op": "life", "files": [file_json(f) for f in c["files"]],
-            "sels": [[dict(s, seed=s["seed"].hex()) for s in ss] for ss in c["sels"]]}
+    d = {"op": c.get("op", "life"), "files": [file_json(f) for f in c["files"]],
+         "sels": [[dict(s, seed=s["seed"].hex()) for s in ss] for ss in c["sels"]]}
+    for k in ("workers", "rounds", "reloads"):
+        if k in c:
+            d[k] = c[k]
+    return d
 
 
 def from_json(d):
@@ -158,8 +162,12 @@ def from_json(d):
             cfgs = {int(g): b.from_json({"op": "select", "cfg": {"groups": gs}, "lv": 0, "v6": False})["cfg"]
                     for g, gs in f["gens"].items()}
         files.append({"kind": f["kind"], "text": f.get("text", ""), "cfgs": cfgs, "expect": f.get("expect"), "what": f.get("what", "")})
-    return {"op": "life", "files": files, "tag": "life-replay",
-            "sels": [[dict(s, seed=bytes.fromhex(s["seed"])) for s in ss] for ss in d["sels"]]}
+    c = {"op": d.get("op", "life"), "files": files, "tag": "life-replay",
+         "sels": [[dict(s, seed=bytes.fromhex(s["seed"])) for s in ss] for ss in d["sels"]]}
+    for k in ("workers", "rounds", "reloads"):
+        if k in d:
+            c[k] = d[k]
+    return c
 
 
 def brief(c, step=None, sel=None):
@@ -532,3 +540,71 @@ def api_correspond(ctx, defs, terms, tcases):
         ctx.broken("correspondence-api", "the selector model (C14.LifeModel.arun) and PhantomIPSelector disagree on %d selection(s) of "
                    "API histories; first: op %d: observed %s ; model says %s"
                    % (len(mm), j, {kk: obs[kk] for kk in ("out", "ip", "rp", "err")}, shown[-300:]), dict(api_to_json(c), tag=c.get("tag")))
+
+
+# ================================================================ reloads while selections are in flight
+def conc_case(rng):
+    a1, b2, c1, d3 = (life_cfg(rng) for _ in range(4))
+    files = [good_file({1: a1, 2: b2}), good_file({1: c1, 3: d3})]
+    return {"op": "lifeconc", "files": files, "sels": [sels_for(rng, [1, 2, 3])], "workers": 4, "rounds": 3, "reloads": 24,
+            "tag": "lifeconc"}
+
+
+def gen_conc(ctx, replayed=()):
+    out = [from_json(d) for d in replayed if d.get("op") == "lifeconc" and len(d.get("files", [])) >= 2]
+    return out + [conc_case(ctx.rng) for _ in range(1 if ctx.tier == "quick" else 6)]
+
+
+def go_run_conc(ctx, cases, race=False):
+    """own processes: a reload that writes into the live map makes the Go runtime abort the whole test binary"""
+    js = [to_json(c) for c in cases]
+
+    def station():
+        return ctx.go_inpkg(".", "pkg/station/lib", {"zz_verif_c14_driver_test.go": "c14/lifecycle_driver_test.go"},
+                            "^TestVerifC14Lifecycle$", js, timeout=900, race=race)
+
+    def registrar():
+        return ctx.go_inpkg(".", "pkg/regserver/regprocessor", {"zz_verif_c14_driver_test.go": "c14/registrar_driver_test.go"},
+                            "^TestVerifC14Registrar$", js, timeout=900, race=race)
+    # the two runs differ in their -run pattern, which names their scratch files: they can run side by side
+    with ThreadPoolExecutor(max_workers=2) as ex:
+        fs, fr = ex.submit(station), ex.submit(registrar)
+        return fs.result(), fr.result()
+
+
+def conc_evaluate(ctx, cases, sres, rres, race=False):
+    for (rc, out, res), name, entry in ((sres, "station", "GetPhantomSelector().Select during OnReload"),
+                                        (rres, "registrar", "processBdReq (both families) during ReloadSubnets")):
+        bc = [dict(to_json(c), tag=c.get("tag")) for c in cases]
+        if race and "DATA RACE" in out:
+            i = out.index("DATA RACE")
+            ctx.fail("reload/%s/data-race" % name, "the race detector reports a data race between a reload and selections in flight "
+                     "(%s): %s" % (entry, out[i:i + 900]), {"cases": bc})
+        if res is None or len(res) != len(cases):
+            if "concurrent map" in out:
+                i = out.index("concurrent map")
+                ctx.fail("reload/%s/crash-under-concurrent-reload" % name, "the %s process aborts when a reload runs while selections are "
+                         "in flight (%s): %s" % (name, entry, out[max(0, i - 60):i + 300]), {"cases": bc})
+            else:
+                ctx.broken("driver-lifeconc-" + name, "the %s concurrent-reload driver did not produce results (rc=%s): %s"
+                           % (name, rc, out[-1500:]))
+            continue
+        for c, r, b1 in zip(cases, res, bc):
+            if r.get("stage") != "ok":
+                ctx.broken("driver-lifeconc-" + name, "%s concurrent-reload run: stage %s" % (name, r.get("stage")), b1)
+                continue
+            ctx.count(("lifeconc", name, to_json(c), r["reloads"]), nontrivial=True, kind="lifeconc/%s/run" % name)
+            for s, o in zip(c["sels"][0], r["conc"]):
+                both = o["a"] != o["b"] and o["a"] in o["seen"] and o["b"] in o["seen"]
+                hist(ctx, "lifeconc/%s/%s" % (name, "both-answers-seen" if both else "one-answer-seen"))
+                stray = [x for x in o["seen"] if x not in (o["a"], o["b"])]
+                if stray:
+                    ctx.fail("reload/%s/concurrent-selection-from-neither-configuration" % name,
+                             "%s, generation %d, libver %d%s, seed %s, with %d reloads alternating between two files: answered %s; the "
+                             "configuration before the reload gives %s, the one after it %s -- the answer is not the pure function of "
+                             "either configuration in force" % (entry, s["gen"], s["lv"], "" if name == "registrar" else ", v6 %s" % s["v6"],
+                                                                s["seed"].hex(), stray[:3], o["a"], o["b"]), b1)
+
+
+CONC_REQUIRED = ["lifeconc/station/run", "lifeconc/registrar/run", "lifeconc/station/both-answers-seen",
+                 "lifeconc/registrar/both-answers-seen"]
